@@ -21,7 +21,7 @@ CONSTANTS
   Family = "funds"
   EmitAt = 0
   MaxK = 2
-  MaxOps = 7
+  MaxOps = 6
 VIEW GView
 INIT GInit
 NEXT GNextC
